@@ -138,8 +138,13 @@ def gen_model_cases(ctx):
 def with_threads(case, threads, suffix=True):
     h, ops = case
     t = h.split()
-    t[0] = t[0] + (f"@t{threads}" if suffix else "")
+    split = None
+    if isinstance(threads, tuple):      # (workers, split depth of the parallel recursor)
+        threads, split = threads
+    t[0] = t[0] + ((f"@t{threads}" + (f"s{split}" if split is not None else "")) if suffix else "")
     t = [x if not x.startswith("threads=") else f"threads={threads}" for x in t]
+    if split is not None:
+        t.append(f"split={split}")
     return (" ".join(t), ops)
 
 
@@ -173,13 +178,13 @@ def gen_groups(ctx):
         # the exhaustive suite of one operator under 2 and 8 workers as well
         op = rng.choice(ddgen.BIN_OPS)
         add(kind, ddgen.case_pairs("x", kind, rng.choice(ddgen.PERMS3), op,
-                                   sample=None if thorough else 16000, rng=rng), threads=(1, 2, 8))
+                                   sample=None if thorough else 16000, rng=rng), threads=(1, 2, 8, (4, 0), (4, 12)))
         for _ in range(120 if thorough else 16):
             # ZBDD: the set-family interface (subset0/1, change, union, ...) as well -- its single-threaded and
             # multi-threaded function types are separate wrappers
             from checks import C09
             extra = (C09.zb_extra, C09.zb_extra, C09.zb_extra) if kind == "zbdd" else ()
-            add(kind, ddgen.case_history("x", kind, rng, nv=rng.randrange(3, 8), length=60, extra_ops=extra), threads=(1, 2, 8))
+            add(kind, ddgen.case_history("x", kind, rng, nv=rng.randrange(3, 8), length=60, extra_ops=extra), threads=(1, 2, 8, (4, 0), (4, 12)))
     for _ in range(60 if thorough else 10):
         add("mtbdd", ddgen.mt_case_history("x", rng, length=60), threads=(1, 2, 8))
     add("mtbdd", ddgen.mt_case_pairs_1var("x", rng.choice(ddgen.MT_OPS)))
@@ -306,7 +311,7 @@ def run(ctx):
             vf.report_violation(
                 ctx, f"digest:{kind}:" + (";".join(ops) if len(ops) <= 30 else f"group-{g}"),
                 {"stage": "correspondence", "kind": "corr", "config": cfg, "case_header": header, "ops": ops,
-                 "configs": sorted({c for c, _ in runs}), "threads": sorted({int(i.split("@t")[1]) for _, i in runs}),
+                 "configs": sorted({c for c, _ in runs}), "threads": sorted({int(re.match(r"\d+", i.split("@t")[1]).group(0)) for _, i in runs}),
                  "verdict": "result digests differ between configurations although every run satisfies the spec",
                  "drv_args": DRV_ARGS, "digests": ds,
                  "what": "same script, different observables (value tables / node counts / sat counts / variable order) "
@@ -354,7 +359,7 @@ def replay(ctx, path):
         for t in threads:
             case = (r["case_header"], r["ops"])
             if t is not None:
-                case = with_threads((re.sub(r"@t\d+", "", case[0]), case[1]), t)
+                case = with_threads((re.sub(r"@t\d+(s\d+)?", "", case[0]), case[1]), t)
             f = os.path.join(ctx.workdir, "replay.txt")
             vf.write_cases(f, [case])
             ok, bad, digests = vf.lockstep_sharded(ctx, binp, drv, [case], nshards=1, drv_args=r.get("drv_args", DRV_ARGS),
